@@ -13,8 +13,9 @@ ev <lo> <hi> <t> <name> <a> <b>
 end
 ```
 Every line is answered with one line: `ok` (or `bad-op`), and `end` with the verdict: `accepted` if the
-events — each placed somewhere inside its window `(lo, hi]`, events of one task in order, an event whose
-window closed before another's opened first — can be fired one after the other through `step`; otherwise
+events — each placed somewhere inside its window `(lo, hi]` (a `req` event: anywhere after `lo` and before
+the task's next event, see `delayable`), events of one task in order, an event whose window closed before
+another's opened first — can be fired one after the other through `step`; otherwise
 `rejected …`.  `ct`: FIFO lock, grants are applied eagerly after every event (what tokio does inside
 release/acquire).  `mt`: the queue order is not observable (the emission of `req` is not atomic with the
 enqueue), so the lock is the unfair one and a grant is fired just before the `acq` it enables.
@@ -147,19 +148,30 @@ structure SS where
   best : Nat
   stuck : String
 
-/-- candidates to be fired next: the pending event with the smallest `hi`, and every pending event that is
-the first of its task and whose window opened before that one closed -/
+/-- `req` events (`phase:r:req`, `phase:w:req`) are emitted *before* the poll of `read_owned()` /
+`write_owned()` that enqueues the task, so the enqueue happens at some point after the emission and before
+the task's next event (its `acq`); any await between the hook and the poll (another hook's pause, a
+pre-emption) lets other tasks get in first.  Such an event is therefore *delayable*: it does not force
+later-emitted events of other tasks to wait for it.  (Every other event is emitted after its step.) -/
+def delayable : Ev → Bool
+  | .rReq _ => true
+  | .wStep _ .req _ => true
+  | _ => false
+
+/-- candidates to be fired next, in emission order: every pending event that is the first of its task and
+whose window opened before the first non-delayable pending event closed (that event itself included) -/
 def candidates (pending : List TEv) : List TEv :=
-  match pending with
-  | [] => []
-  | first :: _ =>
-    let rec go (seen : List Nat) : List TEv → List TEv
-      | [] => []
-      | x :: xs =>
-        if seen.contains x.task then go seen xs
-        else if x.hi == first.hi || x.lo < first.hi then x :: go (x.task :: seen) xs
-        else go (x.task :: seen) xs
-    go [] pending
+  let barrier : Option Nat := (pending.find? (fun x => !delayable x.ev)).map (·.hi)
+  let rec go (seen : List Nat) : List TEv → List TEv
+    | [] => []
+    | x :: xs =>
+      if seen.contains x.task then go seen xs
+      else
+        let ok := match barrier with
+          | none => true
+          | some b => x.hi == b || x.lo < b
+        if ok then x :: go (x.task :: seen) xs else go (x.task :: seen) xs
+  go [] pending
 
 partial def lin (c : Cfg) (s : State) (pending : List TEv) (depth : Nat) : StateM SS Bool := do
   match pending with
